@@ -37,6 +37,7 @@ type SpecEnv struct {
 	goal      bool // evaluating something to be proved (skolemise positive foralls)
 	neg       bool // current polarity is negative
 	inOld     bool
+	callK     int64   // at a call site: references above this were allocated by the callee
 	univ      []*Term // enclosing bound variables that stay quantified (skolems below them are functions)
 }
 
@@ -1083,6 +1084,22 @@ func (env *SpecEnv) call(e *SExpr) Val {
 		return VInt{T: Select(env.scalar(a, e), env.evalInt(args[1]))}
 	case "emptyBoolMap":
 		return VModel{T: ConstArr(ArrSort(SBool), tFalse), Dims: 1, Elem: "Bool"}
+	case "newly":
+		// newly(x): x (a slice or pointer) is nil or was allocated during the call the contract describes
+		var r *Term
+		switch v := env.ev(args[0]).(type) {
+		case VSlice:
+			r = v.Arr
+		case VPtr:
+			r = v.Ref
+		default:
+			env.fail("newly expects a slice or a pointer")
+		}
+		lo := int64(refBase)
+		if env.callK > 0 {
+			lo = env.callK + 1
+		}
+		return VInt{T: Or(Eq(r, IntLit(0)), And(Ge(r, IntLit(lo)), Lt(r, IntLit(1000000000))))}
 	case "bytesOf":
 		// the content of []byte(s) for a string s
 		return VInt{T: UF("bytes_of_str", SInt, env.evalInt(args[0]))}
